@@ -14,13 +14,18 @@ open Py Xs.Bind
 
 /-- what `find_var` looks at in a JSON value -/
 inductive JShape
-  | scalar                                   -- str / number / bool / null
+  | null                                     -- `None`: accepted by every var found under its own name
+  | scalar                                   -- str / number / bool
   | array                                    -- `collections.is_array(value)`
   | object (members : List (Str × Bool))     -- dict: key ↦ "the member is an array"
 deriving Repr, DecidableEq
 
 def JShape.isArray : JShape → Bool
   | .array => true
+  | _ => false
+
+def JShape.isNull : JShape → Bool
+  | .null => true
   | _ => false
 
 /-- the slots of `XmlVar` read by `find_var` / `bind_dataclass` -/
@@ -30,13 +35,15 @@ structure DVar where
   wrapper : Option Str
   /-- `var.list_element or var.tokens` -/
   isList : Bool
+  /-- `var.list_element` -/
+  listElement : Bool
   init : Bool
 deriving Repr, DecidableEq
 
 /-- one iteration of the loop in `DictDecoder.find_var` -/
 def DVar.takes (var : DVar) (key : Str) (value : JShape) : Bool :=
   if var.localName = key then
-    value.isArray == var.isList
+    value.isNull || value.isArray == var.isList   -- `value is None or is_array == var_is_list`
   else if var.wrapper = some key then
     match value with
     | .object ms =>
@@ -76,6 +83,8 @@ def bindStep {α : Type} (bv : DVar → Str → JShape → Except Err α) (cfg :
     match unwrapLeak var kv.1 kv.2 with
     | some err => .error err
     | none =>
+      -- `if value is None and var.list_element: continue` : a null stands for no items
+      if kv.2.isNull && var.listElement then .ok params else
       match bv var kv.1 kv.2 with
       | .error err => .error err
       | .ok x => .ok (if var.init then setKV params var.name x else params)
